@@ -21,7 +21,7 @@ func (c *Check) pathEffects(f *Func, pa *Path) []*Eff {
 		// one effect per primitive site: value variants of a callee (loop unrollings) are not separate occurrences
 		seen := map[string]bool{}
 		for _, e := range c.P.effectsOfEvent(f, ev) {
-			k := e.SiteKey()
+			k := e.SiteKey() + e.Family
 			if len(e.Chain) > 0 && seen[k] {
 				continue
 			}
@@ -252,8 +252,8 @@ func (c *Check) expiredRequestRules(prefix string) {
 				del15 = append(del15, e)
 			}
 		}
-		_, sm := hasFact(af, "(.Request.SuperMode P1)", false)
-		_, nsm := hasFact(af, "(.Request.SuperMode P1)", true)
+		_, sm := hasFact(af, "(.Request.SuperMode "+u.ER.ValP+")", false)
+		_, nsm := hasFact(af, "(.Request.SuperMode "+u.ER.ValP+")", true)
 		if nsm && len(refunds) != 1 {
 			add("refund-at-expiry", fmt.Sprintf("an expired non-super-mode request is refunded %d times", len(refunds)), pa)
 		}
@@ -264,7 +264,7 @@ func (c *Check) expiredRequestRules(prefix string) {
 			add("refund-at-expiry", "refund not decided by SuperMode", pa)
 		}
 		for _, e := range refunds {
-			if e.To.String() != "(.Request.Consumer P1)" || e.Amount.String() != "(.Request.ServiceFee P1)" {
+			if e.To.String() != "(.Request.Consumer "+u.ER.ValP+")" || e.Amount.String() != "(.Request.ServiceFee "+u.ER.ValP+")" {
 				add("refund-args", "expiry refund goes to "+shortTerm(e.To)+" amount "+shortTerm(e.Amount)+" — not (request.Consumer, request.ServiceFee)", pa)
 			}
 		}
@@ -272,8 +272,8 @@ func (c *Check) expiredRequestRules(prefix string) {
 			add("marker-deleted", fmt.Sprintf("expiry deletes %d by-binding and %d by-id markers (need 1 and 1 on every path)", len(del14), len(del15)), pa)
 		} else {
 			k := keyArgs(del14[0])
-			if !(len(k) == 4 && k[0].String() == "(.Request.ServiceName P1)" && k[1].String() == "(.Request.Provider P1)" && k[2].String() == "(.Request.ExpirationHeight P1)" && k[3].IsAt("P0")) ||
-				!keyArgs(del15[0])[0].IsAt("P0") {
+			if !(len(k) == 4 && k[0].String() == "(.Request.ServiceName "+u.ER.ValP+")" && k[1].String() == "(.Request.Provider "+u.ER.ValP+")" && k[2].String() == "(.Request.ExpirationHeight "+u.ER.ValP+")" && k[3].IsAt(u.ER.IdP)) ||
+				!keyArgs(del15[0])[0].IsAt(u.ER.IdP) {
 				add("marker-key", "markers deleted with keys "+fmtTerms(k)+" / "+fmtTerms(keyArgs(del15[0])), pa)
 			}
 		}
@@ -393,14 +393,14 @@ func (c *Check) earnRules(prefix string) {
 		calls18, calls19 := 0, 0
 		for _, ev := range pa.Events {
 			if ev.Kind == EvCall && ev.CI.fn != nil {
-				s := c.P.SummaryOf(ev.CI.fn)
-				for _, e := range s.Effs {
+				effs := c.P.effectsOfEvent(f, ev)
+				for _, e := range effs {
 					if e.Kind == "store" && e.Op == "Set" && e.Family == "0x18" {
 						calls18++
 						break
 					}
 				}
-				for _, e := range s.Effs {
+				for _, e := range effs {
 					if e.Kind == "store" && e.Op == "Set" && e.Family == "0x19" {
 						calls19++
 						break
@@ -540,7 +540,7 @@ func (c *Check) withdrawRules(prefix string) {
 			}
 			// provider records of every provider of the owner (when the scan yields one)
 			for _, d := range del18 {
-				if !d.ContainsOp("types.GetOwnerProvidersSubspace") || !d.ContainsAtom(ownerP) {
+				if !c.P.scansFamily(d, "0x05") || !d.ContainsAtom(ownerP) {
 					add("owner-reset", "a provider record outside the owner's provider index is deleted: "+shortTerm(d), pa)
 				}
 			}
@@ -586,17 +586,26 @@ func (c *Check) withdrawRules(prefix string) {
 func (c *Check) deletionCalls(f *Func, pa *Path, fam string) []*Term {
 	var out []*Term
 	for _, ev := range pa.Events {
-		if ev.Kind != EvCall || ev.CI.fn == nil || len(ev.CI.args) < 2 {
+		if ev.Kind != EvCall || ev.CI.fn == nil {
 			continue
 		}
-		del := false
-		for _, e := range c.P.SummaryOf(ev.CI.fn).Effs {
-			if e.Kind == "store" && e.Op == "Delete" && e.Family == fam && len(e.Chain) == 0 {
-				del = true
+		// the call deletes records of the family: whose records is read off the (instantiated) key
+		var subject *Term
+		for _, e := range c.P.effectsOfEvent(f, ev) {
+			if e.Kind == "store" && e.Op == "Delete" && e.Family == fam && len(e.Chain) <= 2 {
+				k := stripConv(stripSpread(e.Key))
+				if strings.HasSuffix(k.Op, "Iterator.Key") && len(k.A) == 1 && len(k.A[0].A) == 2 {
+					k = stripConv(k.A[0].A[1])
+				}
+				if len(k.A) >= 1 {
+					subject = k.A[0]
+				} else {
+					subject = k
+				}
 			}
 		}
-		if del {
-			out = append(out, ev.CI.args[1])
+		if subject != nil {
+			out = append(out, subject)
 		}
 	}
 	return out
